@@ -631,4 +631,13 @@ theorem source_l1_clamp_agrees (cmv40 : Bool) (b : Block) :
   unfold clampL1 Src.clampL1
   split <;> simp
 
+/-- **source tie** (Gen/SourceRules.lean is regenerated from /repo on every run): `source_meta_from_l6` of level6.rs —
+the thresholds and the table that turn an L6 block into default source min/max PQ — as it stands in the source
+now is the model's `sourceMetaFromL6`, for every block -/
+theorem source_l6_levels_agree (b : Block) :
+    Src.sourceMetaFromL6 b = (Int.ofNat (sourceMetaFromL6 b).1, Int.ofNat (sourceMetaFromL6 b).2) := by
+  unfold Src.sourceMetaFromL6 sourceMetaFromL6
+  simp only [Prod.mk.injEq]
+  constructor <;> (repeat' split) <;> simp_all
+
 end Dovi.C10
